@@ -73,7 +73,7 @@ func (g *Gen) val(v ssa.Value) T {
 		return T{S: g.funcRef(c), So: SRef, GoT: c.Type()}
 	case *ssa.Global:
 		// address of a global used as a value
-		return T{S: g.funcRefName("globaladdr."+c.Name()), So: SRef, GoT: c.Type()}
+		return T{S: g.funcRefName("globaladdr." + c.Name()), So: SRef, GoT: c.Type()}
 	case *ssa.FieldAddr:
 		b := g.val(c.X)
 		return T{S: app("interior", b.S, fmt.Sprint(c.Field+1)), So: SRef, GoT: c.Type()}
@@ -241,7 +241,7 @@ func (g *Gen) resolveAddr(v ssa.Value, st State) LV {
 		return LV{kind: lvBad}
 	}
 	base := g.val(v)
- 	return LV{base: v, kind: lvDeref, heap: "P." + typeKey(pt.Elem()), hso: &Sort{K: KRaw, Name: "(Array Int " + so.Name + ")"}, obj: base.S, vso: so, so: so, goT: pt.Elem()}
+	return LV{base: v, kind: lvDeref, heap: "P." + typeKey(pt.Elem()), hso: &Sort{K: KRaw, Name: "(Array Int " + so.Name + ")"}, obj: base.S, vso: so, so: so, goT: pt.Elem()}
 }
 
 // isCellAlloc: allocations that are modelled as a local mutable cell (everything except
@@ -588,6 +588,7 @@ func (g *Gen) runPass() {
 	g.stGet(st, "alloc", SMath)
 	g.assume(app(">=", st["alloc"], "0"))
 	g.stGet(st, "E.uint8", g.elemHeapSort(SBV8))
+	g.emitErrorAxioms(st)
 	// global invariants and requires
 	isInit := fn.Name() == "init" && fn.Synthetic != ""
 	if isInit {
@@ -961,4 +962,76 @@ func (g *Gen) checkInvariantAt(h *ssa.BasicBlock, li *loopInfo, st State, cond s
 		}
 		g.newObligation(fmt.Sprintf("loop%d.inv-%s", li.ord, what), label, "invariant "+what+": "+c.Text, c.Where, app("=>", cond, t.S))
 	}
+}
+
+// emitErrorAxioms axiomatises errors.Is for the error values of this code base: nil, plain
+// sentinel errors, *storage.Conflict and *storage.errUncertainResult. The clauses for the two
+// storage types restate their Is methods, which are verified against contracts under C09.
+func (g *Gen) emitErrorAxioms(st State) {
+	g.errSt = st
+	g.errQuantDone = false
+	sp := g.prog.byName["storage"]
+	if sp == nil {
+		return
+	}
+	gname := func(n string) string {
+		v, _ := sp.Scope().Lookup(n).(*types.Var)
+		if v == nil {
+			return "inil"
+		}
+		return g.stGet(st, g.globalName(v), SIface)
+	}
+	var sentinels []string
+	for _, n := range []string{"ErrUnsupported", "ErrKeyNotFound", "ErrKeyDuplicated", "ErrCASFailed", "ErrUnexpectedRet", "ErrUnavailable", "ErrUncertainResult"} {
+		sentinels = append(sentinels, gname(n))
+	}
+	// the sentinels are distinct non-nil plain errors (established by storage.init: proved under C09/C11)
+	for i, a := range sentinels {
+		g.assume(and(not(app("=", a, "inil")), app("=", app("itag", a), fmt.Sprint(tagPlainErr))))
+		for _, b := range sentinels[i+1:] {
+			g.assume(not(app("=", a, b)))
+		}
+	}
+	if io := g.prog.byName["io"]; io != nil {
+		if v, ok := io.Scope().Lookup("EOF").(*types.Var); ok {
+			eof := g.stGet(st, g.globalName(v), SIface)
+			g.assume(and(not(app("=", eof, "inil")), app("=", app("itag", eof), fmt.Sprint(tagPlainErr))))
+			for _, a := range sentinels {
+				g.assume(not(app("=", a, eof)))
+			}
+		}
+	}
+}
+
+// needErrIs emits the quantified errors.Is axioms the first time err_is is used.
+func (g *Gen) needErrIs() {
+	if g.errQuantDone {
+		return
+	}
+	g.errQuantDone = true
+	st := State{}
+	g.assume("(forall ((t!q Iface)) (! (= (err_is inil t!q) (= t!q inil)) :pattern ((err_is inil t!q))))")
+	g.assume("(forall ((e!q Iface)) (! (=> (not (= e!q inil)) (err_is e!q e!q)) :pattern ((err_is e!q e!q))))")
+	g.assume(fmt.Sprintf("(forall ((e!q Iface) (t!q Iface)) (! (=> (and (not (= e!q inil)) (= (itag e!q) %d)) (= (err_is e!q t!q) (= e!q t!q))) :pattern ((err_is e!q t!q))))", tagPlainErr))
+	ct := g.prog.lookupType("*storage.Conflict")
+	ut := g.prog.lookupType("*storage.errUncertainResult")
+	sp := g.prog.byName["storage"]
+	if ct == nil || ut == nil || sp == nil {
+		return
+	}
+	gname := func(n string) string {
+		v, _ := sp.Scope().Lookup(n).(*types.Var)
+		if v == nil {
+			return "inil"
+		}
+		return g.stGet(st, g.globalName(v), SIface)
+	}
+	cas := gname("ErrCASFailed")
+	unc := gname("ErrUncertainResult")
+	g.assume(fmt.Sprintf("(forall ((e!q Iface) (t!q Iface)) (! (=> (and (not (= e!q inil)) (= (itag e!q) %d)) (= (err_is e!q t!q) (or (= e!q t!q) (= t!q %s)))) :pattern ((err_is e!q t!q))))", g.te.tagOf(ct), cas))
+	uso := g.te.sortOf(ut.(*types.Pointer).Elem())
+	_ = uso
+	oh := g.stGet(st, g.fieldHeapName(ut.(*types.Pointer).Elem(), "originErr"), &Sort{K: KRaw, Name: "(Array Int Iface)"})
+	g.assume(fmt.Sprintf("(forall ((e!q Iface) (t!q Iface)) (! (=> (and (not (= e!q inil)) (= (itag e!q) %d)) (= (err_is e!q t!q) (or (= e!q t!q) (= t!q %s) (err_is (select %s (iptr e!q)) t!q)))) :pattern ((err_is e!q t!q))))", g.te.tagOf(ut), unc, oh))
+	g.assumed["errors.Is axioms for nil, plain sentinels, *storage.Conflict, *storage.errUncertainResult (the two Is methods are verified under C09)"] = true
 }
